@@ -21,6 +21,7 @@ type MonC13 struct {
 	preRaw     map[string]map[string]bool  // name -> raw queries already fetched and linked (hooks)
 	preGroup   map[string]map[string]int   // name -> raw query -> index of the cached query resource it is linked to
 	preSubs    map[string]map[uintptr]bool // rid -> identities of the live connection subscriptions before the step
+	preInSync  map[string]bool             // conn|rid -> the client's copy equalled the announced state before the step
 }
 
 func NewMonC13() *MonC13 {
@@ -123,6 +124,9 @@ func (m *MonC13) OnStepEnd(w *World, step int) {
 				}
 			}
 		}
+	}
+	if op.K == "ans" && strings.HasPrefix(op.S, "_EVQ.") && op.O == "ok" && !strings.HasPrefix(op.Key, "inject:") {
+		m.queryAnswerApplied(w, step, op)
 	}
 	if op.K != "qevent" {
 		return
